@@ -44,6 +44,7 @@ type mpNode struct {
 	class    byte // 'g' good, 'a' aged (answered 20 minutes ago), 'n' never heard from, 'b' bad (failed flag), 'B' aged + failed flag
 	answers  bool // answers the maintainer's ping
 	fanswers bool // answers find_node (bootstrap, bucket refresh) with an empty node list
+	twin     bool // a stale second entry (another id, never heard from) at the address of a good contact
 }
 
 // maintainerSleeping: the TableMaintainer goroutine is in the select of TableMaintainer itself (its pause between
@@ -71,6 +72,15 @@ func curGid() string {
 		return f[1]
 	}
 	return ""
+}
+
+func hasTwin(nodes []*mpNode, y *mpNode) bool {
+	for _, n := range nodes {
+		if n.twin && n.addr.String() == y.addr.String() {
+			return true
+		}
+	}
+	return false
 }
 
 // goroutinesInside counts the goroutines with a frame of the given package / function prefix
@@ -182,12 +192,33 @@ func runMaintPassCase(seed uint64, k, idx int) {
 	for i, n := 0, r.intn(7); i < n; i++ {
 		mk(depth+1+r.intn(6), []byte{'g', 'a', 'n', 'b', 'B'}[r.intn(5)], r.bool())
 	}
+	// a host that came back under a new id: its old entry (never heard from under that id) sits in the same bucket, at
+	// the same address, as the entry that answered a moment ago. The host is silent during the pass, so the stale entry
+	// fails its ping - THAT entry, not the good one beside it.
+	if k%3 != 0 {
+		perBucket := map[int]int{}
+		for _, n := range nodes {
+			perBucket[sharedPrefix(root, n.id)]++
+		}
+		for tries := 0; tries < 2; tries++ {
+			y := nodes[r.intn(len(nodes))]
+			b := sharedPrefix(root, y.id)
+			if y.class != 'g' || y.twin || perBucket[b] >= 8 {
+				continue
+			}
+			perBucket[b]++
+			y.answers, y.fanswers = false, false
+			nodes = append(nodes, &mpNode{speer: speer{addr: y.addr, id: idInBucket(r, root, b)}, class: 'n', twin: true})
+		}
+	}
 	// every other case: up to 7 contacts (fewer than K, so that no traversal's result set fills and every seed is asked)
 	// also answer find_node, with an empty node list: they have just responded when the pass begins - a bad one is bad
 	// no longer - and the not-bad ones among them respond again in every refresh
 	if k%2 == 1 {
 		for i, n := 0, 1+r.intn(7); i < n; i++ {
-			nodes[r.intn(len(nodes))].fanswers = true
+			if n := nodes[r.intn(len(nodes))]; !n.twin && !hasTwin(nodes, n) {
+				n.fanswers = true
+			}
 		}
 	}
 	cfg := &dht.ServerConfig{
@@ -216,7 +247,9 @@ func runMaintPassCase(seed uint64, k, idx int) {
 	}
 	byAddr := map[string]*mpNode{}
 	for _, n := range nodes {
-		byAddr[n.addr.String()] = n
+		if !n.twin {
+			byAddr[n.addr.String()] = n
+		}
 	}
 	var mu sync.Mutex
 	setup := true
@@ -434,14 +467,18 @@ func runMaintPassCase(seed uint64, k, idx int) {
 			oracle("C06", "good-entry-marked-bad-by-table-maintenance", "case=%d pass k=%d entry=%s", idx, k, key)
 		}
 	}
+	// an address is pinged as questionable only if some entry stored at it is questionable
+	questAt := map[string]bool{}
+	for _, v := range snap0 {
+		if v.Questionable {
+			questAt[mpAddrTok(udp(v.IP, v.Port))] = true
+		}
+	}
 	for _, w := range log2 {
-		if w.q == "ping" && good0[func() string {
-			if n := byAddr[w.to.String()]; n != nil {
-				return hx(n.id[:]) + "/" + mpAddrTok(w.to)
-			}
-			return ""
-		}()] {
-			oracle("C06", "good-entry-pinged-as-questionable", "case=%d pass k=%d to=%s", idx, k, w.to)
+		if _, inTable := slotOf[mpAddrTok(w.to)]; w.q == "ping" && inTable && !questAt[mpAddrTok(w.to)] {
+			// (entries that turned questionable or were un-flagged by the bootstrap's replies are not in these cases:
+			// a reply only ever makes an entry good)
+			oracle("C06", "entry-that-is-not-questionable-pinged-by-table-maintenance", "case=%d pass k=%d to=%s", idx, k, w.to)
 		}
 	}
 	afterTok := "-"
